@@ -13,8 +13,10 @@ def run(ctx):
             "validity_model's hypotheses about the environment: delivered messages satisfy F3.Instance.MsgValid (shape half "
             "re-checked by the driver on every delivered message, existence half = signature verification, C05); no internal error"],
         assumptions=["signature unforgeability", "faulty members hold < 1/3 of scaled power",
-                     "second sentence (unanimous + synchronous => that chain decided) is validated in sync-mode runs "
-                     "(C06 oracle) and not a theorem (real-time bound)"],
+                     "second sentence: unanimous_sync_invariant / unanimous_sync_decides hold for the untimed form of the "
+                     "synchrony bound (F3.Net.SyncOrdered: a node that finds a round-0 phase timeout expired has been handed "
+                     "that phase's message of every honest node); that real-time delivery within the bound implies this "
+                     "ordering is argued in F3/Model/Net.lean and validated by sync-mode runs, not mechanised"],
         search=g.search("C02-"),
-        partial=["unanimous_decides: liveness under a real-time synchrony bound, validated only"],
+        partial=["real-time synchrony => SyncOrdered (clock/latency arithmetic outside the untimed model; validated by sync-mode runs)"],
     )
